@@ -42,6 +42,9 @@ pub fn check_status(b: &Board, p: &RPos, src: &str, rep: &mut Report) {
 struct C04Mon {}
 impl NodeMon for C04Mon {
     fn node(&mut self, n: &Node, rep: &mut Report, _rng: &mut Rng) {
+        if n.diverged {
+            return;
+        }
         if !n.legal.is_empty() {
             rep.seen(hash_bytes(&pack(n.p, n.p.ep)));
         } else {
